@@ -281,6 +281,34 @@ def run(chk):
                     chk.violation("fmt-other|%s|%s" % ("default" if align is None else align, "pad" if pad else "nopad"),
                                   "format(\"%s\", %s) gives %r; \"{}\" gives %r, so the padded text must be %r (non-integers are padded on the right unless < or > is given)" % (
                                       sp, v, got, nat, want), {"value": v, "spec": sp, "got": got, "natural": nat})
+        # rendering deeply nested arrays (many times, also inside other arrays) leaves no trace in how later values render
+        dcases = []
+        for di, (depth_, reps, wide) in enumerate([(100, 50, 3), (600, 40, 20), (700, 3, 600), (1000, 70, 2), (300, 200, 1)]):
+            prog = ("let __o = []; let d = [0]; let i = 0; while i < %d { d = [d]; i = i + 1; }\nlet w = []; let j = 0; while j < %d { push(w, d); j = j + 1; }\n"
+                    "push(__o, format(\"{}|{:>8}|{:<12}|\", [1, 2], [3], [[4], [5]]));\nlet k = 0; while k < %d { format(\"{}\", d); format(\"{:5}\", w); k = k + 1; }\n"
+                    "push(__o, format(\"{}|{:>8}|{:<12}|\", [1, 2], [3], [[4], [5]])); push(__o, format(\"{}\", [1, [2, [3, [4]]], \"s\"])); push(__o, len(format(\"{}\", d)) > %d);"
+                    % (depth_, wide, reps, depth_))
+            dcases.append(Case("dp%d" % di, prog, {"globals": "__o", "steps": 3000000}))
+        dres = core.run_cases(dcases)
+        for di, c_ in enumerate(dcases):
+            r = dres.get(c_.id)
+            if r is None:
+                chk.inconc("missing result")
+                continue
+            if r.get("outcome") == "died":
+                chk.count("deep-array rendering overflows the native stack (nesting beyond what the recursion holds; C08's business)")
+                continue
+            if r.get("outcome") != "ok":
+                if r.get("outcome") == "panic":
+                    chk.violation("panic|" + core.panic_site_sig(r["panic"]["loc"], r["panic"]["msg"]), "rendering nested arrays panics", {"src": c_.src})
+                else:
+                    chk.inconc("deep-array family: %s" % r.get("outcome"))
+                continue
+            o = [x[1] if x[0] == "s" else x for x in canon_dump(r["globals"]["__o"])[1]]
+            chk.observed(("deep-arrays", di))
+            want = ["[1, 2]|     [3]|[[4], [5]]  |", "[1, 2]|     [3]|[[4], [5]]  |", "[1, [2, [3, [4]]], \"s\"]", ("bool", True)]
+            if o != want:
+                chk.violation("fmt-after-deep-arrays|%d" % di, "after rendering deeply nested arrays, ordinary arrays render as %s instead of %s" % (o, want), {"src": c_.src})
         # a print that fails (its stream is a full device) leaves no trace in what later prints write and return
         iso = []
         for tag, failing in (("eprintln", ["eprintln(\"lost {}\", 1);"]), ("eprint-long", ["eprint(\"{}\", \"L\" * 3000);"]),
